@@ -807,6 +807,13 @@ class Evaluator:
                         ph, jb = split
                         for alt, origin in zip(ph[3], ph[4]):
                             v2 = _subst(val, ph, alt)
+                            if tag(v2) == "vsum" and len(v2) > 3 and v2[3][0] == "by":
+                                for nm, payload in v2[2]:
+                                    e_ = self._log(frame, bi, si, kind="ret0", value=("variant", v2[1], nm, payload))
+                                    e_.setdefault("extra_edges", []).append((origin, jb))
+                                    e_.setdefault("extra_guards", []).append(("variant-is", v2[3][1], nm))
+                                    e_["subst"] = (ph, alt)
+                                continue
                             e_ = self._log(frame, bi, si, kind="ret0", value=self._resimplify(v2))
                             e_.setdefault("extra_edges", []).append((origin, jb))
                             e_["subst"] = (ph, alt)
@@ -1109,9 +1116,14 @@ class Evaluator:
 
         def grab(x):
             if (not hit and tag(x) == "phi" and len(x) > 4 and x[4] and all(o is not None for o in x[4]) and len(x[1]) == len(frame.chain) + 1
-                    and str(x[1][-1]).startswith(own) and len(x[3]) >= 2 and all(tag(a) == "call" and len(a) > 3 for a in x[3])
-                    and len(set(a[1] for a in x[3])) == len(x[3])):
-                hit.append(x)
+                    and str(x[1][-1]).startswith(own) and len(x[3]) >= 2):
+                calls = [a for a in x[3] if tag(a) == "call" and len(a) > 3]
+                rest = [a for a in x[3] if not (tag(a) == "call" and len(a) > 3)]
+                # the results of different calls, possibly next to plain Option / Result values (`match kind { None => Err(..), A => f(), B => g() }`)
+                if calls and len(set(a[1] for a in calls)) == len(calls) and all(tag(a) in ("variant", "vsum") for a in rest) and (len(calls) >= 2 or rest):
+                    hit.append(x)
+                elif isinstance(x[2], tuple) and x[2] and x[2][0] in ("comb", "fnptr") and all(tag(a) in ("variant", "vsum", "call") for a in x[3]):
+                    hit.append(x)       # made by distributing a combinator / an indirect call over such a join
             return None
         _walk_terms(val, grab)
         if not hit:
@@ -1666,6 +1678,24 @@ class Evaluator:
 
     def _combinator(self, frame, bi, kind, op, recv, f, site, entry):
         """Option/Result combinators taking a closure: evaluate the closure body on the matching variant."""
+        dj = self._dispatch_join(frame, recv) if tag(recv) == "phi" else None
+        if dj is not None and dj[0] == recv and op in ("map", "map_err", "and_then", "or_else", "inspect", "inspect_err"):
+            # r = match kind { .. => f(), .. => g() }; r.map(h)  =  match kind { .. => f().map(h), .. => g().map(h) }: one evaluation per alternative, each
+            # under the guards of the edge that chose it, joined over the same edges
+            ph, jb = dj
+            outs = []
+            for alt, origin in zip(ph[3], ph[4]):
+                n0 = len(self.log)
+                e2 = self._log(frame, bi, None, kind="call", callee=entry.get("callee"), decl=None, args=[alt, f], substs=[], self_ty=None, line=entry.get("line"),
+                               mac=entry.get("mac"), site=site + ("alt:%s" % origin,))
+                outs.append(self._combinator(frame, bi, kind, op, alt, f, site + ("alt:%s" % origin,), e2))
+                e2["result"] = outs[-1]
+                for e_ in self.log[n0:]:
+                    if e_.get("frame") == frame.id or e_ is e2 or True:
+                        e_.setdefault("extra_edges", [])
+                        if e_["chain"] == frame.chain:
+                            e_["extra_edges"].append((origin, jb))
+            return ("phi", ph[1], ("comb", bi), tuple(outs), tuple(ph[4]))
         good = "Ok" if kind == "Result" else "Some"
         bad = "Err" if kind == "Result" else "None"
         adt = "std::result::Result" if kind == "Result" else "std::option::Option"
